@@ -9,7 +9,7 @@ from . import extract as X
 
 VERIF = os.path.dirname(os.path.dirname(os.path.abspath(__file__)))
 KSRC = os.path.join(VERIF, 'kani')
-KWORK = os.path.join(VERIF, '.work', 'kani')
+KWORK = os.path.join(VERIF, '.work', 'kani' if X.REPO == '/repo' else 'kani_alt')
 
 HARNESS_RE = re.compile(r'^(?:\w+_harness|harness)!\(\s*(\w+)\s*,', re.M)
 PLAIN_RE = re.compile(r'#\[cfg_attr\(kani, kani::proof\)\][^\n]*\n(?:\s*#\[[^\n]*\n)*\s*pub fn (\w+)\s*\(', re.M)
